@@ -357,3 +357,45 @@ def report_resolve_ref(ctx, rule):
         ctx.fail(rule, f, f.node, "link model (resolve_ref): %s (%d disagreeing case(s))" % (problems[0], len(problems)), key=f.qualname + "::resolve-ref-model")
     else:
         ctx.ok(rule, f, f.node, "link model: the string specs of a method reference are each resolved relative to the method's owner (%d spec lists)" % n)
+
+
+def relink_model(ctx, rule):
+    """Parameter._relink interpreted abstractly: the parameter is currently linked to a reactive expression (an object whose
+    `==` returns a truthy object whatever it is compared with) or to a plain reference, or not linked; the new reference
+    is None (a plain value overrides), another reference, or the very same one.  Specification: the namespace's
+    _update_ref(name, ref) is called exactly once with those arguments in every case -- it is what removes the old
+    source watchers and cancels a pending asynchronous evaluation; no shortcut may decide that "nothing changes"."""
+    f = ctx.repo.func(P + "Parameter._relink")
+    problems, n = [], 0
+    for current_kind in ("rx", "plain", "none"):
+        for new_kind in ("None", "other", "same"):
+            if current_kind == "none" and new_kind == "same":
+                continue
+            cur = None if current_kind == "none" else Obj("current_reference", __eqclass__="truthy-eq" if current_kind == "rx" else "ref-A")
+            new = None if new_kind == "None" else (cur if new_kind == "same" else Obj("new_reference", __eqclass__="truthy-eq" if current_kind == "rx" else "ref-B"))
+            calls = []
+
+            def hook(fn, args, kwargs):
+                if fn.endswith(".param._update_ref"):
+                    calls.append(tuple(args))
+                    return None
+                return NotImplemented
+            priv = Obj("private", refs={"x": cur} if cur is not None else {}, async_refs={})
+            obj = Obj("instance", _param__private=priv, param=Obj("namespace"))
+            it = Interp(ctx.hier, dyn=P + "Parameter", inline=lambda m: False, call_hook=hook)
+            try:
+                outs = it.run_all(f, {f.params[0]: Obj("param_x", name="x"), f.params[1]: obj, f.params[2]: "x", f.params[3]: new})
+            except Unsupported as e:
+                raise AnalysisError("%s: absint cannot interpret Parameter._relink: %s" % (rule, e))
+            if len(outs) != 1 or outs[0].imprecise or outs[0].kind != "return":
+                raise AnalysisError("%s: Parameter._relink is not interpretable precisely (%s)" % (rule, outs[0].notes[:2] if outs else "no outcome"))
+            n += 1
+            if len(calls) != 1 or calls[0][0] != "x" or calls[0][1] is not new:
+                problems.append("currently linked to %s, new reference %s: _update_ref is called %d time(s)%s -- the old link (and whatever evaluation is pending inside it) stays in force and its "
+                                "result overwrites the newer assignment" % ({"rx": "a reactive expression (== is always truthy)", "plain": "a plain reference", "none": "nothing"}[current_kind],
+                                                                          new_kind, len(calls), "" if not calls else " with %r" % (calls[0],)))
+    ctx.abstract_cases += n
+    if problems:
+        ctx.fail(rule, f, f.node, "relink model: %s (%d disagreeing case(s))" % (problems[0], len(problems)), key=f.qualname + "::relink-model")
+    else:
+        ctx.ok(rule, f, f.node, "relink model, %d cases: _update_ref(name, ref) is called exactly once whatever the current and the new reference are" % n)
